@@ -527,7 +527,8 @@ def handle (st : Unit) (j : Json) : Except String (Unit × Json) := do
     let pr (r : Bool × String) : Json := Json.arr #[Json.bool r.1, Json.str r.2]
     match Spydr.Verilog.Parse.parseV (Spydr.Verilog.Text.lexV t) with
     | .ok ms => pure (st, Json.mkObj [("elabDesign_frag", pr (Spydr.Verilog.Elab.reportFragDesign ms)),
-        ("elabDesign_bb", pr (Spydr.Verilog.Elab.reportWriterShape ms))])
+        ("elabDesign_bb", pr (Spydr.Verilog.Elab.reportWriterShape ms)),
+        ("elabDesign_hierA", pr (Spydr.Verilog.Elab.reportHierDesignA ms))])
     | .error e => pure (st, Json.mkObj [("rejected", Json.str e)])
   else if fn == "elab" then
     let ms ← (← getArr j "modules").toList.mapM moduleOfJson
